@@ -10,6 +10,13 @@ fn valid_text<const N: usize>(t: &[u8; N]) -> bool {
             i += 1;
         } else if t[i] >= 0xC2 && t[i] <= 0xDF && i + 1 < N && t[i + 1] >= 0x80 && t[i + 1] <= 0xBF {
             i += 2;
+        } else if t[i] >= 0xE0 && t[i] <= 0xEF && i + 2 < N
+            && t[i + 1] >= (if t[i] == 0xE0 { 0xA0 } else { 0x80 })
+            && t[i + 1] <= (if t[i] == 0xED { 0x9F } else { 0xBF })
+            && t[i + 2] >= 0x80 && t[i + 2] <= 0xBF
+        {
+            // 3-byte sequences (no overlong forms, no surrogates)
+            i += 3;
         } else {
             return false;
         }
